@@ -87,6 +87,13 @@ COMPONENTS["retry"] = {"real": ["client/interceptor NewStreamRetry + retryStream
 COMPONENTS["disc"] = {"real": ["discovery/helium", "store/etcdv3 ServiceStatusStream + RegisterService", "store/etcdv3/meta StartEphemeral", "etcd client KV + lessor"], "stub": ["etcd server (simetcd)", "subscribers (prompt / slow / stuck readers)"]}
 COMPONENTS["mon"] = {"real": ["selfmon.NodeStatusWatcher (withActiveLock, monitor, initNodeStatus)", "cluster/calcium (SetNode, ListPodNodes, NodeStatusStream, status)", "store/etcdv3 (BindStatus, watches)", "etcd client KV + lessor"], "stub": ["etcd server (simetcd)", "node agents (heartbeat tasks)", "node engines (simengine)"]}
 
+COMPONENTS["plan"] = {"real": ["cluster/calcium CalculateCapacity + pod locks + doGetDeployStrategy", "resource/cobalt (concurrent plugin calls, mergeCapacity, total)", "strategy (AUTO, GLOBAL, DRAINED, EACH, FILL)", "store/etcdv3 (nodes, node status, GetDeployStatus over workloads and in-progress markers)", "lock/etcdlock + etcd client concurrency, KV, lessor", "wal on a real bbolt file (opened, unused)"], "stub": ["resource plugins (1-3 simulated parties with scripted capacity answers; completion order chosen by the scheduler)", "etcd server (simetcd)"]}
+
+_P = ("one evaluation = one seeded history: 1-3 simulated resource plugins (weights 0.5-100), 1-6 nodes, per plugin and node a scripted answer (capacity 1..30 or unlimited, equal-capacity ties, usage, rate; some nodes not offered by some plugin), recorded workloads and in-progress markers of the application, then 2-6 CalculateCapacity requests "
+      "(every strategy incl. DUMMY, count 1-40, node limit 0-6, include filters), each repeated 1-4 times, answers changing in between; plugin completion order under fifo/random/sticky/PCT schedules, merge and candidate order from the map-order seam, in a quarter of the histories one failing plugin/store/lock call; ")
+_PN = "non-trivial = at least one request reached a strategy or a DUMMY answer was compared; distinct = distinct seam-trace hash"
+_PP = ["query", "plan_produced", "merge_checked"]
+
 PROPS = {
     "C27": small("disc", "one evaluation = a seeded history of 4-13 register / deregister / subscribe (prompt, slow 2.5 s per message, or stuck reader) / unsubscribe / wait operations against real helium (push interval 1 s) over real Mercury and simulated etcd; "
                  "at the end, one push interval plus catch-up time later, every live reading subscriber must hold the registered set and have been served recently, every Unsubscribe must have returned and closed its channel; "
@@ -102,6 +109,14 @@ PROPS = {
     "C36": small("retry", "one evaluation = one client stream through NewStreamRetry (budget 1-4) against a scripted server: 1-5 streams that deliver 0-3 messages and then break with Unavailable / Internal / EOF, 0..budget+1 failing attempts to reopen, optional cancellation by the caller after k messages, watch and non-watch methods; "
                  "non-trivial = every case; distinct = distinct (messages, requests seen by the server) hash",
                  probes=["stream_reopened", "budget_exhausted", "caller_cancelled"]),
+    "C01": small("plan", _P + "C01 rules on every strategy call the real code made: names are candidates, 0 <= n <= capacity, AUTO/GLOBAL/DRAINED total = count, EACH exactly limit (or all) nodes with count each, FILL selected nodes topped up to the level, AUTO never beyond the per-node limit, the API hands the plan on unchanged; " + _PN,
+                 quick={"seconds": 25, "runs": 4000}, probes=_PP + ["plan_produced_AUTO", "plan_produced_GLOBAL", "plan_produced_DRAINED", "plan_produced_EACH", "plan_produced_FILL"], fault_probes=["query_with_injected_failure"]),
+    "C02": small("plan", _P + "C02 rules: a reference feasibility computation per strategy (saturating sums, per-node limit, nodes with enough room) must agree with refusal / plan on every strategy call; a refusal plans nothing and reaches the caller; " + _PN,
+                 quick={"seconds": 25, "runs": 4000}, probes=_PP + ["plan_refused", "plan_refused_infeasible"], fault_probes=["query_with_injected_failure"]),
+    "C03": small("plan", _P + "C03 rules, relational per strategy over every pair of candidate nodes of every produced plan (AUTO even within one among nodes that could still take one; GLOBAL usage within one per-instance share; DRAINED smaller nodes full first; EACH most capacity; FILL most instances); " + _PN,
+                 quick={"seconds": 25, "runs": 4000}, probes=_PP + ["balance_checked"], fault_probes=["query_with_injected_failure"]),
+    "C09": small("plan", _P + "C09 rules: what the strategy is handed (and the DUMMY answer) must equal a reference merge of the scripted answers (intersection, minimum capacity, weight-averaged usage and rate within 1e-9, saturating total), and the same question repeated 2-4 times in one state - under new completion and merge orders - must give the same answer; " + _PN,
+                 quick={"seconds": 25, "runs": 4000}, probes=_PP + ["merge_checked_several_plugins", "repeated_query_compared", "dummy_checked"], fault_probes=["query_with_injected_failure"]),
     "C23": small("store", "one evaluation = one seeded history of 8-30 Store-interface calls (add/remove pod, add/remove/update node with labels and certificates, node and workload status with TTLs -1/0/3/10/30/3600, add (plain and with in-progress marker)/update/remove workload, create/delete in-progress markers, list with filters and limits, get, deploy status, virtual time passing) over 2 pods, 3 nodes, 2 apps, 2 entrypoints and 6 workload ids, "
                  "executed operation by operation against Mercury over simulated etcd and Rediaron over simulated Redis in one bubble; after every operation both stores are read back completely through the API; the comparison of a history stops at the first divergence that changes state; "
                  "non-trivial = at least one operation succeeded; distinct = distinct hash of the sequence of read-back states",
@@ -181,7 +196,16 @@ _NOTE_CLU = ("Trusted: simetcd and simengine as models of etcd and of node engin
 _NOTE_S = ("Trusted: simetcd as a model of etcd (leases on the virtual clock, txns, watches), the reference oracle of the harness, the Go runtime's determinism at GOMAXPROCS=1 with GC off "
            "(policed by trace-hash re-runs). A clean batch is evidence over the explored runs, not proof.")
 
+_MONP = ("Invariant monitor inside simulated histories of the real planning path (Calcium -> cobalt -> strategy over Mercury/simulated etcd) with simulated resource-plugin parties; "
+         "every invocation of a strategy function made by the real code is recorded (through the exported strategy.Plans table) with its inputs and result and held against the rule. "
+         "The statement itself is over inputs only: schedules and faults cannot change a strategy's answer, the simulator supplies the parties, the orders and the population of inputs. ")
+_NOTE_P = _NOTE_S + " Candidate sets have at most 6 nodes; the inputs are those the real merge and the real deploy-status count produce, not arbitrary structs."
+
 MANIFEST_TEXT = {
+    "C01": {"text": _MONP + "Found and fixed: FILL overflow on unlimited capacity (cfb1197).", "note": _NOTE_P},
+    "C02": {"text": _MONP + "Refusal <=> infeasible under the strategy's rule, by a reference feasibility computation. Found and fixed: negative total after an unlimited node (eaa7b5c).", "note": _NOTE_P},
+    "C03": {"text": _MONP + "Pairwise balancing relations per strategy. Found and fixed: DRAINED ordering was not an ordering (9a7e35d).", "note": _NOTE_P},
+    "C09": {"text": "Simulated plugin parties answer in scheduler-chosen order, the merge iterates in simulator-chosen map order: the merged capacity handed to the strategy equals the reference (intersection, min, weighted average, saturating total) and repeating the question in the same state gives the same answer. Found and fixed: first plugin entered the merge unweighted, making the result order-dependent (de14cb0).", "note": _NOTE_P},
     "C27": {"text": "Real helium + real Mercury service registration over simulated etcd with prompt, slow and stuck subscribers: after the last change and one push interval every live reading subscriber holds exactly the registered set; Unsubscribe returns and closes the channel. Found and fixed two defects (blocking dispatch; subscribers invisible to haxmap.ForEach).", "note": _NOTE_S + " Operations are separated by a few virtual milliseconds so that helium's select never has two ready cases at one instant (Go picks among ready cases at random; no seed controls that)."},
     "C28": {"text": "The real node-status watcher with TTL heartbeats on the virtual clock: for every node whose heartbeat lapsed or was deleted (watcher started before or after), all its workloads are reported neither running nor healthy within three virtual minutes; live nodes' workloads keep their status.", "note": _NOTE_S + " etcd backend only (the Redis store streams need keyspace notifications that the Redis stub lacks)."},
     "C29": {"text": "Send through the real RPC handler, chunker, SendLargeFile, workload locks and simulated engines: one result per distinct target and file, byte-identical content with the requested owner/mode where the engine accepted the copy, an error where it did not, and the call always returns (bounded virtual time after quiescence). Found and fixed three defects (empty file, repeated target, hang on missing target / engine abort).", "note": _NOTE_S},
